@@ -24,6 +24,10 @@ type zzNode struct {
 }
 
 func zzDump(t Type) *zzNode {
+	if t == nil {
+		// a member without a type (a half-built tree): handed on as it is, so that the code under test meets it
+		return &zzNode{K: "nil"}
+	}
 	switch v := t.(type) {
 	case *typeConstructor:
 		return &zzNode{K: "basic", Sig: v.signature}
